@@ -10,7 +10,7 @@ Rep(c) == CHOOSE m \in WriteMenu : m.cls = c /\ m.ws[1].v # <<>>
 GSetValues == \E c \in Classes : SetValues(Rep(c).ws) /\ hist' = Append(hist, [a |-> "SetValues", cls |-> c, seal |-> FALSE])
 GOther == /\ (NewObject \/ Template \/ GetConfig \/ LoadConfig \/ DoExport \/ Parse)
           /\ hist' = Append(hist, [a |-> act'.a, cls |-> "", seal |-> (act'.a = "Export" /\ act'.seal)])
-GInit == Init /\ hist = <<>> /\ done = FALSE
-GNext == \/ Len(hist) < Depth /\ (GSetValues \/ GOther) /\ UNCHANGED done
-         \/ Len(hist) = Depth /\ ~done /\ done' = TRUE /\ PrintT(ToJson([lay |-> lay, hist |-> hist])) /\ UNCHANGED <<vars, hist>>
+GInit == Init /\ hist = <<>> /\ done = FALSE /\ steps = 0
+GNext == \/ Len(hist) < Depth /\ (GSetValues \/ GOther) /\ UNCHANGED <<done, steps>>
+         \/ Len(hist) = Depth /\ ~done /\ done' = TRUE /\ PrintT(ToJson([lay |-> lay, hist |-> hist])) /\ UNCHANGED <<vars, hist, steps>>
 =============================================================================
